@@ -49,6 +49,7 @@ def run(repo, chk):
     r4(repo, chk, ref)
     r5(repo, chk)
     r2_headers(repo, chk)
+    r2_presence(repo, chk)
 
 
 _PRIM = {"uint8": "U8", "uint16": "U16", "uint32": "U32", "uint64": "U64", "uint_var": "VAR", "bytes": "BYTES"}
@@ -113,6 +114,35 @@ def r2_headers(repo, chk):
     ws = seq(ep, "push_", lambda g, c: "QuicPacketType.ONE_RTT == self._packet_type" in texts(g)[0])
     ok = [k for k, _ in rs] == ["U8", "BYTES"] and [k for k, _ in ws] == ["U8", "BYTES", "U16"] and norm(ws[1][1].args[0]) == "self._peer_cid"
     chk.ob("R2", "short header: first byte, destination connection ID, packet number", ok, f"reader {[k for k, _ in rs]}, writer {[k for k, _ in ws]}", ep.loc(ep.node))
+
+
+def r2_presence(repo, chk):
+    """presence of an optional extension on the wire depends on its own field only (the decoder treats every extension
+    as independently optional), and the long-header truncation test compares absolute offsets"""
+    m = repo.mod("tls")
+    n = 0
+    for q in sorted(m.functions):
+        if not (q.startswith("push_") and "." not in q):
+            continue
+        f = Fn(repo, "tls:" + q)
+        msg = f.node.args.args[1].arg if len(f.node.args.args) > 1 else None
+        for st in f.stmts(lambda x: isinstance(x, ast.With)):
+            for it in st.items:
+                c = it.context_expr
+                if isinstance(c, ast.Call) and call_name(c) == "push_extension":
+                    n += 1
+                    lg = f.lexical_guards(st, expand=False)
+                    ok = len(lg) <= 1 and all(msg is not None and a[0].startswith(msg + ".") for a in lg)
+                    chk.ob("R2", f"{q}: extension {norm(c.args[1]).split('.')[-1]} is written whenever its own field is set (no other condition)", ok, f"guards {lg}: a value the decoder accepts and the message type can hold is silently dropped by the encoder", f.loc(st))
+    if n < 15:
+        raise AnalysisError(f"only {n} push_extension blocks found")
+    ph = Fn(repo, "quic.packet:pull_quic_header")
+    ends = [(st, v) for st, t, v in ph.assigns(chain="packet_end")]
+    rs = [r for r in ph.raises("ValueError") if natom("packet_end > buf.capacity") in ph.lexical_guards(r, expand=False)]
+    # the assignment that the truncation test reads: the last one before the raise, in the same block
+    near = sorted([(st.lineno, norm(v)) for st, v in ends if rs and st.lineno < rs[0].lineno and natom("version == QuicProtocolVersion.NEGOTIATION", False) in ph.lexical_guards(st, expand=False)])
+    ok = len(rs) == 1 and bool(near) and near[-1][1] == "buf.tell() + rest_length"
+    chk.ob("R3", "pull_quic_header: a long-header packet whose declared length runs past the end of the datagram is refused (absolute end offset > buffer capacity)", ok, f"packet_end = {[norm(v) for st, v in ends]}, {len(rs)} raise(s) under `packet_end > buf.capacity`: a coalesced packet that lies about its length would be returned with a length beyond the buffer", ph.loc(ph.node))
 
 
 def r5(repo, chk):
